@@ -66,6 +66,9 @@ pub fn c08_oracle(case: &PlanCase, trace: &Trace, ctx: &mut Ctx) {
             fault_reached = true;
         }
         if let Res::Panic { msg, loc } = &st.res {
+            if msg.starts_with(crate::wrap::HARNESS_ABORT) {
+                return;
+            }
             ctx.fail(
                 format!("C08:panic:{pname}:{}:{}@{}", op_name(&st.op), msg_class(msg), file_of(loc)),
                 format!("step {i} ({:?}) panicked: {msg} at {loc}", st.op),
@@ -457,6 +460,9 @@ impl Prop for C08WellFormed {
                 ctx.panicked = false;
                 for (i, st) in trace.steps.iter().enumerate() {
                     if let Res::Panic { msg, loc } = &st.res {
+                        if msg.starts_with(crate::wrap::HARNESS_ABORT) {
+                            continue;
+                        }
                         ctx.fail(
                             format!("C08:panic-on-well-formed-input:{pname}:{}:{}@{}", op_name(&st.op), msg_class(msg), file_of(loc)),
                             format!("step {i} ({:?}) panicked: {msg} at {loc}", st.op),
